@@ -21,6 +21,20 @@ import ast, builtins
 from common import *
 import py2gal
 from py2gal import Unsupported
+import failclosed
+
+# the translated functions: one undecorated definition each, bound to its name at run time, with the defaults the model relies on
+# (tools/gen/failclosed.py); `uuid` the real module
+_NOD = {'defaults': {}}
+FAILCLOSED = {'generate': [
+    {'src': 'oslo_utils/strutils.py', 'mod': 'oslo_utils.strutils',
+     'functions': {'bool_from_string': {'defaults': {'strict': 'False', 'default': 'False'}}, 'int_from_bool_as_string': _NOD,
+                   'is_valid_boolstr': _NOD, 'is_int_like': _NOD,
+                   'check_string_length': {'defaults': {'name': 'None', 'min_length': '0', 'max_length': 'None'}},
+                   'validate_integer': {'defaults': {'min_value': 'None', 'max_value': 'None'}}}},
+    {'src': 'oslo_utils/uuidutils.py', 'mod': 'oslo_utils.uuidutils',
+     'functions': {'_format_uuid_string': _NOD, 'is_uuid_like': _NOD, 'generate_uuid': {'defaults': {'dashed': 'True'}}},
+     'imports': {'uuid': 'uuid'}}]}
 
 COQ_TY = dict(py2gal.COQ_TY)
 COQ_TY.update({'pyval': 'pyval', 'uuid': 'N'})
@@ -380,6 +394,7 @@ def strs(t, what):
     return '[%s]' % '; '.join(lit(x) for x in t)
 
 def generate():
+    failclosed.check_all(FAILCLOSED['generate'])
     m = repo_import('oslo_utils.strutils')
     repo_import('oslo_utils.uuidutils')
     st = repo_ast('oslo_utils/strutils.py')
